@@ -36,6 +36,18 @@ def make (c):
     sym = bool (rng.random () < 0.2)
     if sym:
         spec = symmetric (rng)
+    elif rng.random () < 0.15:
+        # arc / helix with wires on its ends (first and last segment of the curve differ in direction)
+        from pmv.props import c02
+        spec = c02.curve_family (rng)
+        spec ['feeds'] = []
+        for g in spec ['geo']:
+            if g ['k'] == 'w' and g ['n'] >= 2:
+                p1, p2 = np.array (g ['p1']), np.array (g ['p2'])
+                spec ['feeds'].append (dict (at = (p1 + (p2 - p1) / g ['n']).tolist (), dir = (p2 - p1).tolist ()))
+        if not spec ['feeds']:
+            return None
+        gen.add_sources (rng, spec, nmax = 1)
     elif rng.random () < 0.55:
         spec = gen.fam_free (rng, equal_junction = bool (rng.random () < 0.5), shift = bool (rng.random () < 0.3))
         gen.add_sources (rng, spec, nmax = 2)
@@ -47,6 +59,14 @@ def make (c):
     for g in spec ['geo']:
         g ['taper'] = None
         g ['tag'] = None
+    # some wires tapered (a tapered wire can be reversed - taper end 1 <-> 2 - but not split)
+    srcpts = [np.array (x ['at']) for x in spec ['src'] if 'at' in x]
+    for g in spec ['geo']:
+        if not sym and g ['k'] == 'w' and g ['n'] >= 3 and rng.random () < 0.15:
+            p1, p2 = np.array (g ['p1']), np.array (g ['p2'])
+            on = any (np.linalg.norm (np.cross (p2 - p1, x - p1)) < 1e-9 * np.linalg.norm (p2 - p1) ** 2 and -1e-9 <= (x - p1) @ (p2 - p1) / ((p2 - p1) @ (p2 - p1)) <= 1 + 1e-9 for x in srcpts)
+            if not on:      # sources are placed by location on the equal segmentation
+                g ['taper'] = [int (rng.integers (1, 4)), float (8.5 * g ['r']), None]
     n = len (spec ['geo'])
     spec ['var'] = dict ( masks = [[int (x) for x in rng.integers (0, 2, n)] for k in range (2)]
                         , perm = [int (x) for x in rng.permutation (n)]
@@ -105,7 +125,7 @@ def variant (spec, mask = None, perm = None, tags = None, split = None):
     if split:
         for wi, frac in split:
             g = geo [wi]
-            if g ['k'] != 'w' or g ['n'] < 2 or g.get ('done'):
+            if g ['k'] != 'w' or g ['n'] < 2 or g.get ('done') or g.get ('taper'):
                 continue
             n1 = 1 + int (frac * (g ['n'] - 1))
             n1 = min (max (n1, 1), g ['n'] - 1)
@@ -122,10 +142,18 @@ def variant (spec, mask = None, perm = None, tags = None, split = None):
         for g, r in zip (geo, mask + [0] * len (geo)):
             if r and g ['k'] == 'w':
                 g ['p1'], g ['p2'] = g ['p2'], g ['p1']
+                if g.get ('taper'):
+                    g ['taper'] = [{1: 2, 2: 1, 3: 3} [g ['taper'][0]]] + g ['taper'][1:]
     if perm and len (perm) == len (geo):
         s ['geo'] = [geo [i] for i in perm]
     if tags and len (tags) == len (s ['geo']):
         for g, t in zip (s ['geo'], tags):
+            g ['tag'] = t
+    if any (g.get ('taper') for g in s ['geo']):
+        # --taper-wire names a tag: keep the order that the automatic tags would give (curves first)
+        from pmv.oracles import georef
+        order, tg = georef.object_tags (s ['geo'])
+        for g, t in zip (order, tg):
             g ['tag'] = t
     return s
 # end def variant
